@@ -37,7 +37,7 @@ func init() {
 		{ID: "E1.jwks.inflight.publish-before-close", Fn: "client/rp.(*inflight).done", P: []string{"i", "keys", "err"}, Kind: "call", Pat: "close($i.doneCh)", Max: 1,
 			Why: "results are written before the channel close that publishes them",
 			Req: []string{"eq($i.keys, $keys)", "eq($i.err, $err)"}},
-		{ID: "E8.jwks.inflight.result", Fn: "client/rp.(*inflight).result", P: []string{"i"}, Kind: "ret any", Pat: "ret($i.keys, $i.err)", Max: 1},
+		{ID: "E8.jwks.inflight.result", Fn: "client/rp.(*inflight).result", P: []string{"i"}, Kind: "ret any", Pat: "ret($i.keys, $i.err)", Max: 1, Only: true},
 		{ID: "E8.jwks.fetch", Fn: "client/rp.(*remoteKeySet).fetchRemoteKeys", P: []string{"r", "ctx"}, Kind: "ret ok", Pat: "ret($ks.Keys, nil)", Max: 1,
 			Req: []string{"ok(httphelper.HttpRequest($r.httpClient, $req, $ks))", "def($req, http.NewRequestWithContext($ctx, _, $r.jwksURL, _), 0)"}},
 		{ID: "E1.jwks.exact-match", Fn: "client/rp.(*remoteKeySet).exactMatch", P: []string{"r", "jwkID", "jwsID"}, Kind: "ret any", Pat: "ret($jwkID == $jwsID)", Max: 1,
